@@ -573,3 +573,69 @@ Proof.
   pose proof (uwi_sl_spec_lem dbg cp c aa sec cx a items fds Hc Hcap He Hp) as H.
   rewrite Ef in H. rewrite (spec_of_sl_unl dbg cp c aa fd Hw) in H. exact H.
 Qed.
+
+(* ------------------------------------------------------------------ F. shape, success iff covered *)
+Lemma fde_rows_sl_invalid dbg cp c aa fd cx :
+  valid_asize (ci_asz (fd_cie fd)) = false ->
+  fst (fde_rows_sl dbg cp c aa fd cx) = ([], Fail EUnsupportedAddressSize).
+Proof. intros H. unfold fde_rows_sl. cbv zeta. cbn [fde_in_of f_asize]. rewrite H. reflexivity. Qed.
+
+Lemma fde_rows_sl_nocap dbg cp c aa fd cx :
+  valid_asize (ci_asz (fd_cie fd)) = true -> cap_full (max_stack cp) 0 = true ->
+  fst (fde_rows_sl dbg cp c aa fd cx) = ([], Crash).
+Proof.
+  intros Hv H. unfold fde_rows_sl, table_new, initialize, reset. cbv zeta. cbn [fde_in_of f_asize]. rewrite Hv, H. reflexivity.
+Qed.
+
+Lemma rows_shape_sl dbg cp c aa fd cx :
+  shape (fd_init fd) (end_address (fde_in_of (sc_be c) aa fd))
+        (map mspan (fst (fst (fde_rows_sl dbg cp c aa fd cx)))) (snd (fst (fde_rows_sl dbg cp c aa fd cx))).
+Proof.
+  destruct (valid_asize (ci_asz (fd_cie fd))) eqn:Hv.
+  - destruct (cap_full (max_stack cp) 0) eqn:Hc.
+    + rewrite (fde_rows_sl_nocap dbg cp c aa fd cx Hv Hc). cbn. split; [exact I|constructor].
+    + destruct (model_eq_spec_sl dbg cp c aa fd cx Hv Hc) as (H1 & H2).
+      rewrite (row_equiv_spans _ _ H1), H2, (end_address_spec (fde_in_of (sc_be c) aa fd) Hv).
+      unfold spec_of_sl. cbv zeta. apply run_spec_lim_shape.
+  - rewrite (fde_rows_sl_invalid dbg cp c aa fd cx Hv). cbn. split; [exact I|constructor].
+Qed.
+
+Lemma fde_uwi_sl_done_succeeds dbg cp c aa fd cx a :
+  snd (fst (fde_rows_sl dbg cp c aa fd cx)) = Done ->
+  fd_init fd <= a -> a < end_address (fde_in_of (sc_be c) aa fd) ->
+  exists r, fst (fde_uwi_sl dbg cp c aa fd cx a) = Ok r /\ row_contains r a = true.
+Proof.
+  intros Hd H1 H2. rewrite fde_uwi_sl_pick. unfold pick.
+  pose proof (rows_shape_sl dbg cp c aa fd cx) as [Hch Hsh]. rewrite Hd in Hsh.
+  destruct Hsh as (l0 & lastx & Hl & Hlast & Ho).
+  rewrite Hl in Hch. rewrite <- Hlast in H2.
+  destruct (chain_covers l0 lastx _ a Hch Ho H1 H2) as (x & Hx & Hx1 & Hx2).
+  rewrite <- Hl in Hx. apply in_map_iff in Hx as (r & Hr & Hin). subst x. cbn [mspan fst snd] in *.
+  assert (Hrc : row_contains r a = true) by (unfold row_contains; lia).
+  destruct (find_exists _ (fun r => row_contains r a) _ r Hin Hrc) as (y & Hy). rewrite Hy.
+  exists y. split; [reflexivity|]. apply find_some in Hy. tauto.
+Qed.
+
+Lemma uwi_sl_succeeds_iff_lem dbg cp c aa sec cx a items fds :
+  asz_ok (sc_asz c) ->
+  entries_all dbg c sec = Ok (items, None) ->
+  parsed_fdes dbg c sec items = Some fds ->
+  (forall fd, find (fun f => covers f a) fds = Some fd ->
+              snd (fst (fde_rows_sl dbg cp c aa fd cx)) = Done) ->
+  ((exists r, fst (unwind_info_for_address_sl dbg cp c aa sec cx a) = Ok r /\ row_contains r a = true)
+   <-> exists fd, In fd fds /\ covers fd a = true).
+Proof.
+  intros Hc He Hp Hdone.
+  unfold unwind_info_for_address_sl. rewrite (linear_lookup_lem dbg c sec a items fds Hc He Hp).
+  destruct (find (fun f => covers f a) fds) as [fd|] eqn:Ef.
+  - split.
+    + intros _. exists fd. apply find_some in Ef. exact Ef.
+    + intros _. pose proof Ef as Ef'. apply find_some in Ef' as [Hin Hcov].
+      assert (Hasz : asz_ok (ci_asz (fd_cie fd))).
+      { pose proof (parsed_fdes_asz dbg c sec items fds Hp Hc) as Hall. rewrite Forall_forall in Hall. apply Hall, Hin. }
+      destruct (end_address_covers (sc_be c) aa fd a Hasz Hcov) as [H1 H2].
+      apply fde_uwi_sl_done_succeeds; [apply Hdone; reflexivity|exact H1|exact H2].
+  - split.
+    + intros (r & Hr & _). discriminate.
+    + intros (fd & Hin & Hcov). eapply find_none in Ef; [|exact Hin]. cbv beta in Ef. congruence.
+Qed.
